@@ -1,9 +1,52 @@
 import QecVerif.Model.Wire
+import QecVerif.Model.NaiveDecode
 namespace Qec.Drv
 open Qec Qec.Wire
 
-/-- driver ops of property C14 (first protocol token `c14`) -/
+/-- `e:r,e:r,…` → list of pairs of bit vectors -/
+def c14Pairs? (s : String) : Option (List (BVec × BVec)) :=
+  (s.splitOn ",").mapM fun item =>
+    match item.splitOn ":" with
+    | [a, b] => do
+        let x ← parseBits? a
+        let y ← parseBits? b
+        pure (x, y)
+    | _ => none
+
+def c14ShowVerdicts (l : List Bool) : String := String.ofList (l.map fun b => if b then '1' else '0')
+
+/-- driver ops of property C14 (first protocol token `c14`)
+
+    naive <max_qubits|N> <S> <n> <syndrome>      → ValueError | None | ok <recovery bsf>
+    corrected <S> <L> <e:r,e:r,…>                → one verdict bit per pair (`corrected S L e r`)
+    inspan <S> <v:cert,v:cert,…>                 → one verdict bit per pair (`inSpanCert S v cert`)
+    distcheck <S> <L> <n> <d>                    → 0 | 1
+-/
 def c14 : List String → Option String
+  | ["naive", mq, sS, sn, ss] => do
+      let mq ← parseOptNat? mq
+      let S ← parseMat? sS
+      let n ← parseNat? sn
+      let s ← parseBits? ss
+      match naiveDecoderDecode mq S n s with
+      | .error .value => pure "ValueError"
+      | .ok none => pure "None"
+      | .ok (some r) => pure ("ok " ++ showBits r)
+  | ["corrected", sS, sL, ps] => do
+      let S ← parseMat? sS
+      let L ← parseMat? sL
+      let ps ← c14Pairs? ps
+      pure (c14ShowVerdicts (ps.map fun er => corrected S L er.1 er.2))
+  | ["inspan", sS, ps] => do
+      let S ← parseMat? sS
+      let ps ← c14Pairs? ps
+      pure (c14ShowVerdicts (ps.map fun vc => inSpanCert S vc.1 vc.2))
+  | ["distcheck", sS, sL, sn, sd] => do
+      let S ← parseMat? sS
+      let L ← parseMat? sL
+      let n ← parseNat? sn
+      let d ← parseNat? sd
+      pure (showBool (distCheck S L n d))
   | _ => none
 
 end Qec.Drv
